@@ -5,6 +5,7 @@ import Driver.C12
 import Driver.C10
 import Driver.C03
 import Driver.C11
+import Driver.C04
 open Lean CKT CKT.Driver
 
 def dispatch (j : Json) : Except String Json := do
@@ -16,6 +17,7 @@ def dispatch (j : Json) : Except String Json := do
   else if op.startsWith "c10." then c10 op j
   else if op.startsWith "c03." then c03 op j
   else if op.startsWith "c11." then c11 op j
+  else if op.startsWith "c04." then c04 op j
   else throw s!"unknown op {op}"
 
 def handle (line : String) : String :=
